@@ -512,7 +512,7 @@ void rational_interval_mul(lp_rational_interval_t* P, const lp_rational_interval
     if (rational_interval_endpoint_lt(&tmp, tmp_open, &result.a, result.a_open)) {
       rational_swap(&tmp, &result.a);
       result.a_open = tmp_open;
-    } else if (rational_interval_endpoint_lt(&result.b, result.b_open, &tmp, tmp_open)) {
+    } else if (rational_interval_endpoint_lt(&result.b, !result.b_open, &tmp, !tmp_open)) {
       rational_swap(&tmp, &result.b);
       result.b_open = tmp_open;
     }
@@ -523,7 +523,7 @@ void rational_interval_mul(lp_rational_interval_t* P, const lp_rational_interval
     if (rational_interval_endpoint_lt(&tmp, tmp_open, &result.a, result.a_open)) {
       rational_swap(&tmp, &result.a);
       result.a_open = tmp_open;
-    } else if (rational_interval_endpoint_lt(&result.b, result.b_open, &tmp, tmp_open)) {
+    } else if (rational_interval_endpoint_lt(&result.b, !result.b_open, &tmp, !tmp_open)) {
       rational_swap(&tmp, &result.b);
       result.b_open = tmp_open;
     }
@@ -534,7 +534,7 @@ void rational_interval_mul(lp_rational_interval_t* P, const lp_rational_interval
     if (rational_interval_endpoint_lt(&tmp, tmp_open, &result.a, result.a_open)) {
       rational_swap(&tmp, &result.a);
       result.a_open = tmp_open;
-    } else if (rational_interval_endpoint_lt(&result.b, result.b_open, &tmp, tmp_open)) {
+    } else if (rational_interval_endpoint_lt(&result.b, !result.b_open, &tmp, !tmp_open)) {
       rational_swap(&tmp, &result.b);
       result.b_open = tmp_open;
     }
@@ -622,7 +622,7 @@ void dyadic_interval_mul(lp_dyadic_interval_t* P, const lp_dyadic_interval_t* I1
     if (dyadic_interval_endpoint_lt(&tmp, tmp_open, &result.a, result.a_open)) {
       dyadic_rational_swap(&tmp, &result.a);
       result.a_open = tmp_open;
-    } else if (dyadic_interval_endpoint_lt(&result.b, result.b_open, &tmp, tmp_open)) {
+    } else if (dyadic_interval_endpoint_lt(&result.b, !result.b_open, &tmp, !tmp_open)) {
       dyadic_rational_swap(&tmp, &result.b);
       result.b_open = tmp_open;
     }
@@ -633,7 +633,7 @@ void dyadic_interval_mul(lp_dyadic_interval_t* P, const lp_dyadic_interval_t* I1
     if (dyadic_interval_endpoint_lt(&tmp, tmp_open, &result.a, result.a_open)) {
       dyadic_rational_swap(&tmp, &result.a);
       result.a_open = tmp_open;
-    } else if (dyadic_interval_endpoint_lt(&result.b, result.b_open, &tmp, tmp_open)) {
+    } else if (dyadic_interval_endpoint_lt(&result.b, !result.b_open, &tmp, !tmp_open)) {
       dyadic_rational_swap(&tmp, &result.b);
       result.b_open = tmp_open;
     }
@@ -644,7 +644,7 @@ void dyadic_interval_mul(lp_dyadic_interval_t* P, const lp_dyadic_interval_t* I1
     if (dyadic_interval_endpoint_lt(&tmp, tmp_open, &result.a, result.a_open)) {
       dyadic_rational_swap(&tmp, &result.a);
       result.a_open = tmp_open;
-    } else if (dyadic_interval_endpoint_lt(&result.b, result.b_open, &tmp, tmp_open)) {
+    } else if (dyadic_interval_endpoint_lt(&result.b, !result.b_open, &tmp, !tmp_open)) {
       dyadic_rational_swap(&tmp, &result.b);
       result.b_open = tmp_open;
     }
@@ -887,7 +887,7 @@ void lp_interval_mul(lp_interval_t* mul, const lp_interval_t* I1, const lp_inter
       lp_value_swap(&tmp_lb, &result.a);
       result.a_open = tmp_open;
     }
-    if (lp_interval_endpoint_lt(&result.b, result.b_open, &tmp_ub, tmp_open)) {
+    if (lp_interval_endpoint_lt(&result.b, !result.b_open, &tmp_ub, !tmp_open)) {
       lp_value_swap(&tmp_ub, &result.b);
       result.b_open = tmp_open;
     }
@@ -899,7 +899,7 @@ void lp_interval_mul(lp_interval_t* mul, const lp_interval_t* I1, const lp_inter
       lp_value_swap(&tmp_lb, &result.a);
       result.a_open = tmp_open;
     }
-    if (lp_interval_endpoint_lt(&result.b, result.b_open, &tmp_ub, tmp_open)) {
+    if (lp_interval_endpoint_lt(&result.b, !result.b_open, &tmp_ub, !tmp_open)) {
       lp_value_swap(&tmp_ub, &result.b);
       result.b_open = tmp_open;
     }
@@ -911,7 +911,7 @@ void lp_interval_mul(lp_interval_t* mul, const lp_interval_t* I1, const lp_inter
       lp_value_swap(&tmp_lb, &result.a);
       result.a_open = tmp_open;
     }
-    if (lp_interval_endpoint_lt(&result.b, result.b_open, &tmp_ub, tmp_open)) {
+    if (lp_interval_endpoint_lt(&result.b, !result.b_open, &tmp_ub, !tmp_open)) {
       lp_value_swap(&tmp_ub, &result.b);
       result.b_open = tmp_open;
     }
